@@ -106,7 +106,10 @@ def _gen_fluent(rng, o):
     src_mismatch = 0
     if ky > 1 and rng.randrange(100) < o["mismatch_pct"]:
         src_mismatch = rng.choice([-1, 1])
-    return dict(mode="fluent", nsrc=nsrc, ky=ky, steps=steps, src_mismatch=src_mismatch)
+    # how the program reaches the lowering: straight from Action.graph(), or through Cascade.from_actions (which de-duplicates),
+    # there also as two actions that state the same program twice (every node has a duplicate to be merged)
+    via = rng.choice(["graph", "graph", "cascade", "cascade2"])
+    return dict(mode="fluent", nsrc=nsrc, ky=ky, steps=steps, src_mismatch=src_mismatch, via=via)
 
 
 # ---------------------------------------------------------------------------------------------- building
@@ -133,17 +136,41 @@ def _build_hand(gp):
 
 
 def _build_fluent(gp):
+    acts = _fluent_actions(gp)
+    if gp.get("via", "graph") == "graph":
+        return acts[0].graph()
+    from earthkit.workflows import Cascade
+    return Cascade.from_actions(acts)._graph
+
+
+def fluent_undeduplicated(gp):
+    """The graphs of the actions as the author stated them, before Cascade.from_actions merged anything."""
+    return [a.graph() for a in _fluent_actions(gp)]
+
+
+def _fluent_actions(gp):
+    cache = {}
+
+    def mk(tag, *a):
+        # one callable per tag: a program stated twice has equal payloads
+        if tag not in cache:
+            cache[tag] = simtasks.make(tag, *a)
+        return cache[tag]
+    return [_fluent_action(gp, mk) for _ in range(2 if gp.get("via") == "cascade2" else 1)]
+
+
+def _fluent_action(gp, make):
     import numpy as np
     from earthkit.workflows import fluent
     ky = gp["ky"]
     srcs = np.empty(gp["nsrc"], dtype=object)
     for i in range(gp["nsrc"]):
         ny = None if not gp["src_mismatch"] else ky + gp["src_mismatch"]
-        srcs[i] = simtasks.make(f"src{i}", ky, 0, ny)
+        srcs[i] = make(f"src{i}", ky, 0, ny)
     act = fluent.from_source(srcs, yields=("y", list(range(ky))) if ky > 1 else None, dims=["x"], coords={"x": list(range(gp["nsrc"]))})
     for si, st in enumerate(gp["steps"]):
         if st[0] == "map":
-            f = simtasks.make(f"m{si}", 1)
+            f = make(f"m{si}", 1)
             if st[1] == "in_first":
                 pl = fluent.Payload(f, [fluent.Node.input_name(0), f"S{st[2]}"])
             elif st[1] == "static_first":
@@ -153,16 +180,16 @@ def _build_fluent(gp):
             act = act.map(pl)
         elif st[0] == "map_yields":
             k2 = st[1]
-            f = simtasks.make(f"g{si}", k2, 0, (k2 + (1 if st[2] else 0)) if st[2] else None)
+            f = make(f"g{si}", k2, 0, (k2 + (1 if st[2] else 0)) if st[2] else None)
             act = act.map(fluent.Payload(f), yields=("y", list(range(k2))))
         elif st[0] == "reduce":
-            f = simtasks.make(f"r{si}", 1)
+            f = make(f"r{si}", 1)
             if len(st) > 2:
                 f.batchable = True
                 act = act.reduce(fluent.Payload(f), dim=st[1], batch_size=st[2])
             else:
                 act = act.reduce(fluent.Payload(f), dim=st[1])
-    return act.graph()
+    return act
 
 
 def canonical_job(graph):
@@ -266,6 +293,13 @@ def materialise(gp):
                 unsorted_declared=sorted(n.name for n in nodes if list(n.outputs) != sorted(n.outputs)),
                 dup_input_arg=sorted(n.name for n in nodes if any(sum(1 for a in n.payload[1] if isinstance(a, str) and a == i) > 1 for i in n.inputs)),
                 max_outputs=max((len(n.outputs) for n in nodes), default=0), nodes=len(nodes))
+    if gp["mode"] == "fluent" and gp.get("via", "graph") != "graph" and not failed:
+        # what the actions compute as their author stated them: merging duplicates must not add or lose a single value
+        orig = set()
+        for g0 in fluent_undeduplicated(gp):
+            v0, f0 = ref_eval_graph(g0)
+            orig |= {repr(v) for v in v0.values()}
+        info["orig_valueset"] = sorted(orig)
     return job, vals, info
 
 
